@@ -88,7 +88,7 @@ def _ev(e, env, lets, depth=0):
     return UNK
 
 
-def run(facts, rep, floor=1):
+def run(facts, rep, floor=0):
     rep.rule(R, "no refusing branch of NTTTables::new is certain from the degree alone for a supported degree "
              "(HE_POLY_MOD_DEGREE_MIN ..= HE_POLY_MOD_DEGREE_MAX)")
     lo_n, hi_n = _const(facts, "HE_POLY_MOD_DEGREE_MIN"), _const(facts, "HE_POLY_MOD_DEGREE_MAX")
